@@ -44,7 +44,8 @@ def in_known_region(case):
 KNOWN = {"P10": {"region": in_known_region,
                  "keys": ["doc-member-lost:*", "class-inner-changed", "doc-member-changed:*", "doc-entry-missing:py:method",
                           "doc-entry-missing:py:attribute", "member-of-hidden-class-shown", "doc-entry-moved:py:method",
-                          "doc-entry-moved:py:attribute"]}}
+                          "doc-entry-moved:py:attribute", "doc-entry-missing:empty-doc:py:method",
+                          "doc-entry-missing:empty-doc:py:attribute"]}}
 
 
 def strategy(tier):
@@ -143,9 +144,19 @@ def evaluate(case):
         # (a) doc-carrying commands keep their entry, unchanged
         for it, par in documented:
             marker = it["doc"]["marker"]
-            if not marker:
-                continue
             if it["k"] in ("attr", "member") and it["name"] in hidden_members:
+                continue
+            if not marker:
+                # empty doccomment: no marker to follow, match the entry by its (unique) name
+                if it["k"] in ("set", "generic", "block", "class"):
+                    continue
+                n0s = [n for n, _ in nodes0 if named_after(n, it["name"]) and (it["k"] not in ("test", "section", "addtest") or
+                                                                               any(a[0] == "warning" for a in n.admonitions()))]
+                n1s = [n for n, _ in nodes1 if named_after(n, it["name"]) and (it["k"] not in ("test", "section", "addtest") or
+                                                                               any(a[0] == "warning" for a in n.admonitions()))]
+                if len(n0s) == 1 and len(n1s) != 1:
+                    res.fail("doc-entry-missing:empty-doc:" + n0s[0].name, f"off={off}: entry of {it['k']} {it['name']!r} with an empty "
+                             f"doccomment occurs {len(n1s)} times")
                 continue
             d0 = find(nodes0, marker)
             if len(d0) != 1:
